@@ -718,6 +718,12 @@ pub fn gen_wide(rng: &mut Rng, kind: usize, fixed: Option<usize>) -> GModel {
 }
 
 /// kinds that exist for C07's canonical version-5 models (no version-6 table, no terrain shadow)
+/// (kind, row count at which the table's byte size reaches 2^16): bone tables 132 B, material name
+/// offsets 4 B, shapes 16 B, shape meshes 12 B, shape values 4 B, element ids 32 B, sub-meshes 16 B,
+/// meshes 36 B
+pub const WIDE_BYTES_CROSS: &[(usize, usize)] =
+    &[(1, 497), (4, 16384), (5, 4096), (6, 5462), (7, 16384), (8, 2048), (10, 4096), (11, 1821)];
+
 pub const WIDE_KINDS_CANONICAL: &[usize] = &[1, 2, 3, 4, 5, 6, 7, 8, 9, 10, 11, 12, 13];
 
 /// `canonical`: a model inside C07's quantifier (version 5, writable pairs, canonical streams,
@@ -1272,6 +1278,15 @@ pub fn generate(thorough: bool, seed: u64, out: &mut dyn Write) {
         for kind in 0..WIDE_KINDS {
             let fixed = if round == 0 && !thorough && kind != 9 && kind < 12 { Some(*rng.pick(&[256usize, 257, 300])) } else { None };
             let m = gen_wide(&mut rng, kind, fixed);
+            writeln!(out, "parse {}", m.tokens()).unwrap();
+        }
+    }
+    // tables whose BYTE size crosses 2^16 (row count x row size: a size or an offset computed in
+    // 16 bits wraps there although the row count is far from 2^16)
+    for &(kind, n) in WIDE_BYTES_CROSS {
+        if thorough || kind % 2 == 1 {
+            let d = rng.below(2) as usize;
+            let m = gen_wide(&mut rng, kind, Some(n + d));
             writeln!(out, "parse {}", m.tokens()).unwrap();
         }
     }
